@@ -16,6 +16,8 @@ inductive Recv | none | ref | refMut | byValue | byValueMut
 inductive Tm
   | t (toks : List String)
   | rep (leaf nest : List String) (sep : String) (trailing : Bool)
+  | chain (leaf nest : List String) (method : String)   -- `e0.m(e1).m(e2)…`: a left fold over the fields
+  | tuplePat                                            -- `((f0, f1), f2)…`: left-nested tuple pattern of the field names
   | opaque (why : String)
   deriving DecidableEq, Repr
 
